@@ -7,13 +7,20 @@ import subprocess
 
 PROP = "C09"
 ENGINE = "walk"
-LEAN_MODULES = ["RtoscModel.Props.C09"]
+LEAN_MODULES = ["RtoscModel.Props.C09", "RtoscModel.Props.C09Ports"]
 THEOREMS = ["Rtosc.Walk.walk_eq_enumerate_partial", "Rtosc.Walk.walk_eq_enumerate_root_partial",
             "Rtosc.Walk.walk_eq_enumerate_counterexample", "Rtosc.Walk.walk_eq_code", "Rtosc.Walk.enumerate_count",
             "Rtosc.Walk.enumerate_nodup", "Rtosc.Walk.walk_reports_exactly_once",
             "Rtosc.Walk.walk_restores_buffer", "Rtosc.Walk.walk_restores_buffer_root",
             "Rtosc.Walk.walked_address_dispatches", "Rtosc.Walk.walked_address_dispatches_only",
-            "Rtosc.Walk.apart_of_headsApart",
+            "Rtosc.Walk.apart_of_headsApart", "Rtosc.Walk.siblingsApart_of_headsApart",
+            "Rtosc.Walk.walked_address_dispatched", "Rtosc.Walk.walked_address_dispatched_among",
+            "Rtosc.Walk.walked_address_reaches_port", "Rtosc.Walk.tagsAdmitted_spec",
+            "Rtosc.Walk.reported_idxBounded", "Rtosc.Walk.walked_address_dispatched_short",
+            "Rtosc.Walk.walked_address_dispatches_ports_short",
+            "Rtosc.Walk.dispatch_empty_leaf_counterexample", "Rtosc.Walk.dispatch_needs_idxBounded",
+            "Rtosc.Walk.walked_address_dispatches_ports", "Rtosc.Walk.walked_address_dispatches_ports_among",
+            "Rtosc.Walk.ports_table_is_rendering", "Rtosc.Walk.ports_table_wf",
             "Rtosc.Walk.walk_prunes", "Rtosc.Walk.walk_prunes_partial", "Rtosc.Walk.walk_prunes_gate",
             "Rtosc.Walk.walk_prunes_toggle", "Rtosc.Walk.walk_prunes_subport_toggle", "Rtosc.Walk.walk_scratch_limit",
             "Rtosc.Walk.walk_needs_room", "Rtosc.Walk.empty_buffer_needs_zero", "Rtosc.Walk.leading_hash_literal"]
@@ -68,8 +75,19 @@ ASSUMPTIONS = ["port names have the form head #N1 text1 … #Nk textk ['/'] [:ty
                "statement); buffer_size itself is never looked at by the walk (with fixes/C09-enabled-loc-copy-size.patch; "
                "before it the address of a reported enabling port depended on it); an empty buffer has a second NUL byte "
                "(ports.h asks for an all-zero buffer)",
-               "dispatch of a reported address: every digit run of the address is below 2^31 (C05's IdxBounded); 'only the "
-               "reported port' needs sibling names that do not answer to a common address",
+               "dispatch of a reported address: every digit run of the address is below 2^31 (C05's IdxBounded; literal text of "
+               "a name may hold a digit run of any length, so this does not follow from the form of the names and cannot be "
+               "dropped: dispatch_needs_idxBounded; it follows from the decidable condition DigitsShort on the names - a "
+               "digit run of literal text plus the digits of a following #N is at most nine characters long - by "
+               "reported_idxBounded, and the ..._short theorems are stated with it); 'only the reported port' needs sibling names that do not answer to a common "
+               "address (SiblingsApart; decidable sufficient condition HeadsApart: siblingsApart_of_headsApart); no leaf name "
+               "is empty in front of a type part (LeavesNamed: a port whose whole name is ':i', below a sub-tree, makes "
+               "rtosc_argument_string take the type string for the address, dispatch_empty_leaf_counterexample; not generated); "
+               "the type string of the message must be admitted by every port on the way, typed sub-tree ports included "
+               "(admittedAlong; the harness sends the reported leaf's first alternative, the oracle does not judge pairs below a "
+               "typed sub-tree port); against C04's model of Ports::dispatch additionally: sub-tree names of one path component "
+               "and no leaf name empty in front of '/' and type part (PortsFlat: the recursion callbacks of port-sugar.h cut "
+               "exactly one component)",
                "runtime clause: 'enabled by' names a port of the table that contains the guarded port, or (form name/port, "
                "only for a sub-tree name without '#': port_is_enabled compares the texts of the names) of the guarded "
                "sub-tree's own table; that port answers T, F or an integer (non-zero = enabled); sub-tree names of one path "
@@ -84,11 +102,17 @@ TRUSTED = ["hand-written model RtoscModel/Walk/{Buf,Model}.lean of walk_ports, w
            "C09-enabled-subport-runtime, C09-enabled-loc-copy-size applied), and of atoi / snprintf(\"%d\") / strlen as used there",
            "C05's model of rtosc_match (dispatch of the reported addresses), C17's model of the metadata reader, C18's models "
            "of Ports::operator[] and collapsePath, imported unchanged",
+           "dispatch clause: the driver's dispatch model RtoscModel/Walk/Dispatch.lean (dispatchSim: Ports::dispatch without "
+           "location buffer over C05's rtosc_match, with the harness' own callbacks) and C04's model of Ports::dispatch "
+           "(RtoscModel/Ports/{Tree,Hash,Dispatch}.lean, recursion callbacks as rRecurCb) with C04's theorems "
+           "dispatch_linear_iff / dispatch_loc_iff / dispatch_unique, imported unchanged (module Props/C09Ports.lean)",
            "abstract runtime object (child object or NULL per sub-tree address, answer T / F / integer per enabling port) in "
            "place of the callbacks; the scratch buffers char[1024] of walk_ports_recurse are not modelled (assumption on the "
            "address length)"]
 LEVEL_TEXT = ("Lean theorems: walk_eq_enumerate_partial / walk_reports_exactly_once / walk_restores_buffer / "
-              "walked_address_dispatches hold for all well-formed trees of any depth and size, every prefix and every buffer "
+              "walked_address_dispatches / walked_address_dispatched (the dispatch model the driver runs) / "
+              "walked_address_dispatches_ports (C04's model of Ports::dispatch, with and without location buffer) hold for "
+              "all well-formed trees of any depth and size, every prefix and every buffer "
               "with enough room (no bound); the models they are about are compared with the compiled implementation "
               "(ASan/UBSan, names in exact-size allocations) on thousands of generated trees per run, and an independent Python "
               "reference of the statement (enumeration as a multiset, buffer, dispatch, pruning) is evaluated on the "
@@ -100,11 +124,27 @@ LEVEL_NOTE = ("walk_eq_enumerate is partial: leaf names with more than one '#' a
               "for them (GuardsOK, PathPrefix); for multi-component sub-tree names only pruning by NULL pointers is proved "
               "(walk_prunes_partial).  What the runtime object answers (get_value_from_runtime, Capture, the sugar "
               "callbacks) is outside the Lean model: it is tied by correspondence on the four compiled trees.  "
-              "walked_address_dispatches is about rtosc_match_path level by level (C05's model); that Ports::dispatch "
-              "and the type part of the pattern then deliver the message to that port's callback (dispatchSim in the "
-              "driver) is compared with the implementation but not proved; the dispatch with a location buffer (hashed "
-              "tables) is compared with the same dispatchSim - that the lookup strategy does not change the callbacks is "
-              "C04's loc_independent, whose tree type is not linked to this property's in Lean.  The theorems fix the order of the reports; "
+              "The dispatch clause is proved against two models of Ports::dispatch.  (1) dispatchSim, the model the "
+              "driver runs (no location buffer, rtosc_match of C05 on every row with its type part, the callback of a "
+              "sub-tree port skipping as many components as its name has, as the harness' callbacks do): for every "
+              "well-formed tree, multi-component sub-tree names included, the message to a reported address returns with "
+              "exactly the reported port called if its type string is admitted by the reported leaf and by every typed "
+              "sub-tree port on the way, and with no callback otherwise (walked_address_dispatched; "
+              "walked_address_reaches_port for trees without typed sub-tree ports; walked_address_dispatched_among without "
+              "SiblingsApart).  (2) C04's model (with and without location buffer, every lookup strategy, recursion "
+              "callbacks as rRecurCb), through an embedding of this property's tree type into C04's "
+              "(ports_table_is_rendering, ports_table_wf): exactly the callbacks of the ports on the index path are "
+              "invoked, each once (walked_address_dispatches_ports) - for sub-tree names of one path component only, "
+              "because C04's recursion callback cuts one component; for multi-component sub-tree names only (1) is "
+              "proved, and (1) and (2) are not linked to each other in Lean.  Hypotheses with a machine-checked witness "
+              "that they cannot be dropped: IdxBounded on the reported address - it does not follow from TreeWF "
+              "(dispatch_needs_idxBounded: the rows 'a#3' and 'a4294967297' answer to no common address, yet atoi's "
+              "32-bit wrap makes the first answer to the second's address); it is replaced by the decidable condition "
+              "DigitsShort on the names in reported_idxBounded / walked_address_dispatched_short / "
+              "walked_address_dispatches_ports_short - and LeavesNamed "
+              "(dispatch_empty_leaf_counterexample).  That the real sugar callbacks (rRecur / rRecurs / rRecurp with "
+              "their index extraction) behave like the modelled recursion callbacks is tied by correspondence only.  "
+              "The theorems fix the order of the reports; "
               "the statement does not, and harness, driver and oracle compare multisets")
 TECHNIQUE = "machine-checked proof over a hand-written executable model + differential correspondence + independent oracle"
 
